@@ -68,12 +68,17 @@ EvalSrc(s, regs) ==
   IF s.k = "await" THEN [k |-> "await", t |-> regs[s.reg].p] ELSE s
 
 IsRecv(s) == s.k = "recv"
+\* a timeout that can fire in finite model time; a duration of 2^30 ms or more is a "never" sentinel
+\* (`! [100000000000000000000000, p]`): it keeps nothing pending and is never "ready"
+Fires(s) == s.k = "timeout" /\ s.d < 1073741824
 RecvIndex(srcs, i) == Cardinality({j \in 1..(i - 1) : IsRecv(srcs[j])})   \* 0-based, as in the code
 Tag(v) == IF v.k = "tup" /\ v.fs # <<>> /\ v.fs[1].k = "bin" THEN "btup"
           ELSE IF v.k = "tup" /\ v.fs # <<>> /\ v.fs[1].k = "pid" THEN "req"
+          ELSE IF v.k = "tup" /\ v.fs # <<>> /\ v.fs[1].k = "res" THEN "rpair"    \* [\File, \File]: two handles in one message
           ELSE v.k
 Compatible(m, s) == \E i \in 1..Len(s.tys) : s.tys[i] = Tag(m)            \* check_message_compatible
-FilterAccepts(m, s) == \E i \in 1..Len(s.acc) : s.acc[i] = m               \* the filter body's verdict
+\* the filter body's verdict (a body that only calls an effect builtin and answers Ok accepts every message)
+FilterAccepts(m, s) == s.body = "effect" \/ \E i \in 1..Len(s.acc) : s.acc[i] = m
 
 
 (* The documented readiness of a select source for a process-like record P with fields
